@@ -1,5 +1,7 @@
 (* C09 - ACL decisions are first-match and independent of lookup history.
-   Property theorems only; every proof is `exact <lemma>` from proof/C09_ACL.v. *)
+   Property theorems only; every proof is `exact <lemma>` from proof/C09_ACL.v, C09_Conc.v, C09_IPString.v,
+   C09_CIDR.v, C09_Text.v.  The first block speaks about rule records and an abstract address rendering; the
+   blocks after it about the modelled net.IP.String, the bit-level meaning of CIDR rules and rule FILES (text). *)
 From Hy Require Import model.C09_ACL proof.C09_ACL model.C09_Conc proof.C09_Conc.
 From Hy Require Import model.C09_IPString proof.C09_IPString proof.C09_CIDR model.C09_Text proof.C09_Text.
 From Coq Require Import ZArith Sorting.Sorted.
